@@ -968,8 +968,7 @@ def _identity(tree) -> dict:
     # on its own, so a helper that keeps or writes one of its parameters is still reported)
     raw = [n for n in cands[0].body if isinstance(n, ast.FunctionDef)]
     methods = [inline_method_calls(cands[0], n) for n in raw]
-    followed = sorted({m.group(1) for fn in methods for n in ast.walk(fn) if isinstance(n, ast.Name)
-                       for m in [__import__("re").match(r".*__(_[A-Za-z0-9_]+?)_\d+$", n.id)] if m})
+    followed = sorted({h for fn in methods for h in getattr(fn, "c14_inlined", [])})
     res = dict(add=None, writes_arg=False, df_adopts=False, binds_param=False, _inlined_methods=followed)
     modes = set()
     for fn in methods:
